@@ -808,17 +808,16 @@ func (f *fragment) unprotectedSetRow(row *Row, rowID uint64) (changed bool, err 
 		f.storage.Containers.Remove(headContainerKey + i)
 	}
 
-	// From the given row, get the rowSegment for this shard.
-	seg := row.segment(f.shard)
-	if seg == nil {
-		return changed, nil
-	}
-
-	// Put each container from rowSegment to fragment storage.
-	citer, _ := seg.data.Containers.Iterator(f.shard << shardVsContainerExponent)
-	for citer.Next() {
-		k, c := citer.Value()
-		f.storage.Containers.Put(headContainerKey+(k%(1<<shardVsContainerExponent)), c)
+	// From the given row, get the rowSegment for this shard. If the row has
+	// no data for this shard then the row is simply left empty, but the
+	// caches below must still be brought up to date with the removal.
+	if seg := row.segment(f.shard); seg != nil {
+		// Put each container from rowSegment to fragment storage.
+		citer, _ := seg.data.Containers.Iterator(f.shard << shardVsContainerExponent)
+		for citer.Next() {
+			k, c := citer.Value()
+			f.storage.Containers.Put(headContainerKey+(k%(1<<shardVsContainerExponent)), c)
+		}
 	}
 
 	// Update the row in cache.
@@ -2225,6 +2224,10 @@ func (f *fragment) importValue(columnIDs []uint64, values []int64, bitDepth uint
 		_ = f.openStorage(true)
 		return err
 	}
+	// The bits were written straight to storage, so rows materialized
+	// before this import are stale.
+	f.rowCache = &simpleCache{make(map[uint64]*Row)}
+
 	// We don't actually care, except we want our stats to be accurate.
 	f.incrementOpN(totalChanges)
 
